@@ -39,6 +39,11 @@ EXTRA = {
         "(table_obs: a numpy scalar would arrive as npscalar), compared with the assumed types, and sent through the "
         "model unchanged (op json_of_table_obs, theorem tablePVal_obs links the two); which numpy dtype a parsed column "
         "has is observed per case",
+        "row labels of the backing frame (permuted, string, duplicate — concat without ignore_index —, DatetimeIndex) are "
+        "not part of a StarTable table: the JsonData must hold one value per ROW in row order whatever the labels "
+        "(expected leaves from the generator) and the round trip must reproduce header, row count and values in order; "
+        "Table.equals (label-aligned, C14's subject) is consulted only for tables with default row numbering, since "
+        "json_data_to_table always returns default numbering",
         "well-formed tables only (DESIGN §3 clauses 1-5 without the separator / marker conditions): unique "
         "non-blank trimmed column names, trimmed units matching the column kind, name not ending in '*', non-empty "
         "set of blank-free destinations, integers of magnitude below 2^53 (WF clause `isNumber`; 2^53+1 is the proved "
@@ -337,7 +342,11 @@ def check_roundtrip(out, case, t, text, what, spec=None):
         out.fail(f"{what}: round trip through JSON changed the values", case, str(col_values(t2))[:300], str(col_values(t))[:300],
                  key="roundtrip:values")
         return None
-    if not (t2.equals(t) and t.equals(t2)):
+    default_labels = spec is None or spec.get("index", "default") == "default"
+    if len(t2.df) != len(t.df):
+        out.fail(f"{what}: round trip through JSON changed the number of rows", case, len(t2.df), len(t.df), key="roundtrip:rows")
+        return None
+    if default_labels and not (t2.equals(t) and t.equals(t2)):
         out.fail(f"{what}: Table.equals says the round-tripped table differs", case, False, True, key="roundtrip:equals")
         return None
     return t2
@@ -418,7 +427,9 @@ def gen_spec(rng, allow_nat=True):
                 else:
                     vals.append(rng.choice([rng.random() * 10 ** rng.randint(-8, 15), -rng.random()]))
         cols.append((nm, unit, kind, vals))
-    return {"name": name, "dests": dests, "cols": cols, "transposed": rng.random() < 0.3}
+    # row labels of the backing frame: not part of a StarTable table, must not matter
+    index = rng.choice(["default", "default", "permuted", "strings", "duplicates", "concat", "datetime"])
+    return {"name": name, "dests": dests, "cols": cols, "transposed": rng.random() < 0.3, "index": index}
 
 
 def build_table(rng, spec):
@@ -441,6 +452,21 @@ def build_table(rng, spec):
         else:
             data[nm] = np.array(vals, dtype="float64")
     df = pd.DataFrame(data)
+    n, how = len(df), spec.get("index", "default")
+    if n and data:
+        if how == "permuted":
+            lab = list(range(n))
+            rng.shuffle(lab)
+            df.index = lab
+        elif how == "strings":
+            df.index = ["r%d" % rng.randint(0, 99) if rng.random() < 0.3 else "row %d" % i for i in range(n)]
+        elif how == "duplicates":
+            df.index = [rng.choice([0, 1]) for _ in range(n)]
+        elif how == "concat" and n >= 2:
+            k = rng.randint(1, n - 1)
+            df = pd.concat([df.iloc[:k].reset_index(drop=True), df.iloc[k:].reset_index(drop=True)])   # no ignore_index
+        elif how == "datetime":
+            df.index = pd.to_datetime(["2020-01-%02d" % (1 + (i * 7) % 28) for i in range(n)])
     with warnings.catch_warnings():
         warnings.simplefilter("ignore")
         return Table(df, name=spec["name"], destinations=set(spec["dests"]), units=[c[1] for c in spec["cols"]],
@@ -455,6 +481,7 @@ def spec_case(spec):
             return float_tok(v)
         return v
     return {"name": spec["name"], "destinations": spec["dests"], "transposed": spec["transposed"],
+            "index": spec.get("index", "default"),
             "columns": [[nm, unit, kind, [val(kind, v) for v in vals]] for nm, unit, kind, vals in spec["cols"]]}
 
 
@@ -467,7 +494,8 @@ def spec_from_case(c):
         elif kind == "num":
             vals = [float(v) for v in vals]
         cols.append((nm, unit, kind, vals))
-    return {"name": c["name"], "dests": c["destinations"], "cols": cols, "transposed": c.get("transposed", False)}
+    return {"name": c["name"], "dests": c["destinations"], "cols": cols, "transposed": c.get("transposed", False),
+            "index": c.get("index", "default")}
 
 
 NS_SPELL = ["2020-01-02 03:04:05.123456789", "2020-01-02T03:04:05.1234567", "1999-12-31 23:59:59.999999999",
@@ -564,7 +592,8 @@ def run(tier, seed, model_ok, translator, search=False):
     out = Outcome()
     out.rule = ("(a) to_json_serializable on a zoo of Python / numpy / pandas objects (every dispatch branch, fallbacks, "
                 "failures); (b) well-formed tables of all column kinds (NaN, +-inf, integral and fractional numbers, int64, "
-                "microsecond and nanosecond datetimes, NaT, zero rows / columns, unicode and JSON-hostile text, names and destinations) "
+                "microsecond and nanosecond datetimes, NaT, zero rows / columns, unicode and JSON-hostile text, names and destinations; row labels of the backing "
+                "frame default / permuted / strings / duplicates / concat without ignore_index / DatetimeIndex) "
                 "-> table_to_json_data -> json.dumps(allow_nan=False) -> json.loads -> json_data_to_table; (c) reader-produced "
                 "JsonData (make_table_json_data and parse_blocks(to='jsondata')) of well-formed grids, text and native cells, "
                 "both orientations; (d) malformed JsonData into json_data_to_table (model vs code on the exception class); "
@@ -759,6 +788,7 @@ def run_table_case(out, rng, spec, case, model, edit=None):
     for k in kinds:
         out.count("b:kind:" + k)
     out.count("b:rows:" + str(len(spec["cols"][0][3]) if spec["cols"] else "no columns"))
+    out.count("b:row labels:" + spec.get("index", "default"))
     infinite = any(k == "num" and any(math.isinf(v) for v in vals) for _, _, k, vals in spec["cols"])
     has_nat = any(k == "datetime" and any(v is None for v in vals) for _, _, k, vals in spec["cols"])
     has_nan = any(k == "num" and any(v != v for v in vals) for _, _, k, vals in spec["cols"])
